@@ -1572,6 +1572,80 @@ def normalise_shortcircuit(tree):
     return n
 
 
+def normalise_class_consts(tree, known, other_trees=()):
+    """a class-level assignment `NAME = E` that is new with respect to the pinned inventory, is never stored to again, is only
+    read as self.NAME / cls.NAME / Class.NAME in this module (and nowhere in the other modules) and whose value uses no other
+    class-level name is the module-level constant NAME = E (put in front of the class): reads become plain NAME."""
+    n = 0
+    mod_names = {t.id for st in tree.body for t in (st.targets if isinstance(st, ast.Assign) else ([st.target] if isinstance(st, ast.AnnAssign) else [])) if isinstance(t, ast.Name)}
+    mod_names |= {st.name for st in tree.body if isinstance(st, (ast.FunctionDef, ast.AsyncFunctionDef, ast.ClassDef))}
+    for st in tree.body:
+        if isinstance(st, (ast.Import, ast.ImportFrom)):
+            mod_names |= {(a.asname or a.name).split(".")[0] for a in st.names}
+    for ci, cls in [(i, c) for i, c in enumerate(list(tree.body)) if isinstance(c, ast.ClassDef)]:
+        decos = {norm_name(d) for d in cls.decorator_list}
+        if any(norm_name(b).split(".")[-1] in ("Enum", "IntEnum", "IntFlag", "Flag", "NamedTuple", "Protocol", "TypedDict") for b in cls.bases):
+            continue
+        is_dc = bool(decos & {"dataclass", "dataclasses.dataclass"})
+        level = {t.id for a in cls.body for t in (a.targets if isinstance(a, ast.Assign) else ([a.target] if isinstance(a, ast.AnnAssign) else [])) if isinstance(t, ast.Name)}
+        level |= {a.name for a in cls.body if isinstance(a, (ast.FunctionDef, ast.AsyncFunctionDef, ast.ClassDef))}
+        for a in list(cls.body):
+            if isinstance(a, ast.Assign) and len(a.targets) == 1 and isinstance(a.targets[0], ast.Name):
+                nm, val = a.targets[0].id, a.value
+            elif isinstance(a, ast.AnnAssign) and isinstance(a.target, ast.Name) and a.value is not None:
+                nm, val = a.target.id, a.value
+            else:
+                continue
+            if is_dc and not (isinstance(a, ast.AnnAssign) and norm_name(a.annotation.value if isinstance(a.annotation, ast.Subscript) else a.annotation).split(".")[-1] == "ClassVar"):
+                continue  # a dataclass field, not a class constant
+            if f"{cls.name}.{nm}" in known or nm in mod_names:
+                continue
+            if any(isinstance(x, ast.Name) and x.id in level for x in ast.walk(val)):
+                continue
+            # every use in this module is a read through self / cls / the class; no other module touches the name
+            uses = [x for x in ast.walk(tree) if isinstance(x, ast.Attribute) and x.attr == nm]
+            if not uses or any(not isinstance(x.ctx, ast.Load) or not (isinstance(x.value, ast.Name) and x.value.id in ("self", "cls", cls.name)) for x in uses):
+                continue
+            if any(isinstance(x, ast.Name) and x.id == nm for x in ast.walk(tree) if x is not (a.targets[0] if isinstance(a, ast.Assign) else a.target)):
+                continue
+            if any((isinstance(x, ast.Attribute) and x.attr == nm) or (isinstance(x, ast.Name) and x.id == nm) for t2 in other_trees for x in ast.walk(t2)):
+                continue
+            # subclasses / other classes of this module defining the same attribute would shadow it
+            if sum(1 for c2 in ast.walk(tree) if isinstance(c2, ast.ClassDef) for a2 in c2.body
+                   for t2 in (a2.targets if isinstance(a2, ast.Assign) else ([a2.target] if isinstance(a2, ast.AnnAssign) else [])) if isinstance(t2, ast.Name) and t2.id == nm) != 1:
+                continue
+            cls.body.remove(a)
+            if not cls.body:
+                cls.body.append(ast.Pass())
+            new = ast.Assign(targets=[ast.Name(id=nm, ctx=ast.Store())], value=val)
+            ast.copy_location(new, a)
+            tree.body.insert(tree.body.index(cls), new)
+            mod_names.add(nm)
+
+            class R(ast.NodeTransformer):
+                def visit_Attribute(self, node):
+                    self.generic_visit(node)
+                    if node.attr == nm and isinstance(node.value, ast.Name) and node.value.id in ("self", "cls", cls.name):
+                        return ast.copy_location(ast.Name(id=nm, ctx=ast.Load()), node)
+                    return node
+            R().visit(tree)
+            ast.fix_missing_locations(tree)
+            n += 1
+    return n
+
+
+def norm_name(e):
+    if isinstance(e, ast.Call):
+        e = e.func
+    parts = []
+    while isinstance(e, ast.Attribute):
+        parts.append(e.attr)
+        e = e.value
+    if isinstance(e, ast.Name):
+        parts.append(e.id)
+    return ".".join(reversed(parts))
+
+
 def normalise_local_lambdas(tree, known):
     """a nested `def g(a, b): [del b]; return E` that is new with respect to the pinned inventory and whose name is only read in the
     enclosing function is the value `lambda a, b: E` (deleting an unused parameter has no effect); uses of g become that lambda."""
@@ -1655,7 +1729,8 @@ def normalise_program(trees):
             for x_ in ast.walk(tree):
                 for ch_ in ast.iter_child_nodes(x_):
                     ch_._parent = x_
-            k_ = normalise_local_lambdas(tree, set(known0))
+            k_ = normalise_class_consts(tree, set(known0), [t2 for p2, t2 in trees.items() if p2 != path])
+            k_ += normalise_local_lambdas(tree, set(known0))
             for x_ in ast.walk(tree):
                 if hasattr(x_, "_parent"):
                     del x_._parent
